@@ -43,6 +43,9 @@ HAND = [
     'function f(o) { var k; for (k in o) ; }', '{ while (1) ; }', '{ for (;;) ; }', '{ if (a) ; }', '{ if (a) b; else ; }',
     '{ l: ; }', '{ with (a) ; }', 'switch (a) { case 1: while (b) ; }', 'function g() { for (var k in o) ; }', 'for (k in o) ;',
     'do ; while (a); b;', '{ do ; while (a); }', 'if (a) ; else b;',
+    # `get` / `set` as plain identifiers in front of a keyword operator: accepted when more than one white-space character follows
+    # (the lexer's accessor look-ahead wants exactly one), and the printers write exactly one (finding F32)
+    'get  in y;', 'x = set  instanceof b;',
 ]
 
 
